@@ -76,6 +76,7 @@ type StdScheduler struct {
 	feeder    chan ScheduledJob
 	dispatch  chan ScheduledJob
 	started   bool
+	run       uint64 // counts the calls to Start that took effect
 
 	queue       JobQueue
 	queueLocker sync.Locker
@@ -318,7 +319,13 @@ func (sched *StdScheduler) Start(ctx context.Context) {
 	}
 
 	ctx, sched.cancel = context.WithCancel(ctx)
-	go func() { <-ctx.Done(); sched.Stop() }()
+	sched.run++
+	sched.wg.Add(1)
+	go func(run uint64) {
+		defer sched.wg.Done()
+		<-ctx.Done()
+		sched.stopRun(run)
+	}(sched.run)
 
 	// start scheduler execution loop
 	sched.wg.Add(1)
@@ -496,6 +503,22 @@ func (sched *StdScheduler) Stop() {
 	sched.mtx.Lock()
 	defer sched.mtx.Unlock()
 
+	sched.stop()
+}
+
+// stopRun stops the scheduler unless it has been started again since the
+// given run.
+func (sched *StdScheduler) stopRun(run uint64) {
+	sched.mtx.Lock()
+	defer sched.mtx.Unlock()
+
+	if sched.run == run {
+		sched.stop()
+	}
+}
+
+// stop is called with the mtx held.
+func (sched *StdScheduler) stop() {
 	if !sched.started {
 		sched.logger.Info("Scheduler is not running")
 		return
